@@ -88,6 +88,12 @@ pub enum Stmt {
     KillSelf(i32),
     /// `mkdir -p "$(dirname "$1")"`: the script creates the target's directory itself
     MkDirs,
+    /// fork a child that writes `n` numbered stderr lines `<tag> bg<k>` (one
+    /// write each, 1 ms apart) while the script carries on; waited for at the end
+    ErrBg {
+        n: usize,
+        tag: String,
+    },
 }
 
 #[derive(Clone, Debug, Serialize, Deserialize, PartialEq, Eq)]
@@ -138,6 +144,7 @@ impl Rule {
                 Stmt::Out { mode, pad } => format!("out\t{}\t{}", mode.name(), pad),
                 Stmt::KillSelf(sig) => format!("killself\t{}", sig),
                 Stmt::MkDirs => "mkdirs".to_string(),
+                Stmt::ErrBg { n, tag } => format!("errbg\t{}\t{}", n, tag),
             };
             s.push_str(&line);
             s.push('\n');
@@ -197,6 +204,10 @@ impl Rule {
                 },
                 "killself" if w.len() >= 2 => Stmt::KillSelf(w[1].parse().unwrap_or(9)),
                 "mkdirs" => Stmt::MkDirs,
+                "errbg" if w.len() >= 3 => Stmt::ErrBg {
+                    n: w[1].parse().unwrap_or(1),
+                    tag: w[2].into(),
+                },
                 _ => continue,
             };
             stmts.push(st);
